@@ -340,10 +340,12 @@ func runFwd(in input) []hlib.Case {
 		c.Monitors = []string{"harness: cannot construct the forwarder: " + err.Error()}
 		return []hlib.Case{c}
 	}
+	var notified int64
 	if manual {
-		go func() { // the coordinator's notification channel holds one entry: keep it drained
+		go func() { // the coordinator's notification channel holds one entry: keep it drained, and count
 			for {
 				fc.WaitForFlush()
+				atomic.AddInt64(&notified, 1)
 			}
 		}()
 	}
@@ -555,6 +557,28 @@ func runFwd(in input) []hlib.Case {
 		mon.add(fmt.Sprintf("%d bodies ended in a failed attempt but the handler logged %d times that it gives up", len(gs), len(logs)))
 	}
 
+	// ---- NotifyFlush calls.  Every call has completed when Run returns; the drainer may still be
+	// about to count the last one, so wait until the count reaches what the model expects (the
+	// verdict is Coq's; the expectation here only bounds the waiting).
+	notifiedTerm := "None"
+	if manual && !stuck {
+		effDyn := 0
+		for _, n := range in.Dyn {
+			if _, static := xh[n]; n != "" && !static {
+				effDyn++
+			}
+		}
+		want := int64(nFlush)
+		if effDyn > 0 {
+			want = int64(len(bodies)) - 1 + int64(invalid)
+		}
+		for i := 0; i < 1500 && atomic.LoadInt64(&notified) != want; i++ {
+			time.Sleep(2 * time.Millisecond)
+		}
+		time.Sleep(2 * time.Millisecond)
+		notifiedTerm = hlib.App("Some", nat(int(atomic.LoadInt64(&notified))))
+	}
+
 	// ---- the Coq case
 	var xhl, il, bl []string
 	for _, kv := range in.XHeaders {
@@ -581,7 +605,7 @@ func runFwd(in input) []hlib.Case {
 	nev := len(ev.l)
 	ev.mu.Unlock()
 	c.Coq = hlib.App("FwdCase", hlib.Z(int64(window)), hlib.List(xhl), hlib.StrList(in.Dyn), u.utf8Table(), hlib.List(il), hlib.Bool(manual), nat(nFlush), evs, hlib.List(bl),
-		hlib.App("Ctr", nat(int(created)), nat(int(sent)), nat(int(retried)), nat(int(dropped)), nat(int(invalid))))
+		hlib.App("Ctr", nat(int(created)), nat(int(sent)), nat(int(retried)), nat(int(dropped)), nat(int(invalid))), notifiedTerm)
 	c.Monitors = mon.l
 	retriedBodies := 0
 	for _, b := range bodies {
@@ -590,7 +614,7 @@ func runFwd(in input) []hlib.Case {
 		}
 	}
 	c.Obs = map[string]interface{}{"bodies": len(bodies), "events": nev, "items": len(u.items), "created": created, "sent": sent,
-		"retried": retried, "dropped": dropped, "invalid": invalid, "bodies_retried": retriedBodies}
+		"retried": retried, "dropped": dropped, "invalid": invalid, "bodies_retried": retriedBodies, "notified": atomic.LoadInt64(&notified)}
 	c.Nontrivial = nd >= 2 && len(bodies) >= 3 && (retriedBodies > 0 || nDropped > 0 || len(in.Dyn) > 0 || len(in.Flushes) > 0)
 	if in.Shutdown {
 		// the input class of the suspected shutdown defect: reported under its own signature
